@@ -34,15 +34,16 @@ Proof. intros s. exact (conj (lookup_abs s) (conj (get_let_abs s) (which_abs s))
    object closes and objects left open when the group closes): after the group
      - every frame above the global one is the very frame it was (macros, aliases, table reference, object),
      - the table in force is the same reference and no table that existed has been modified (copy-on-write safety),
-     - the global frame differs only in its namespace, which is the global effect the lexical semantics assigns to
-       the group; the interpreter-wide cells are those of the semantics;
+     - the global frame differs only in its namespace (definitions, and aliases made by \global\let), which is the
+       global effect the lexical semantics assigns to the group; the interpreter-wide cells are those of the semantics;
      - the state stands for [leave (abs s) e1]: the environment from before the group with the globals from inside. *)
 Theorem C04_balanced_restores :
   forall (s : state) (o p : option objinfo) (b : list op) (e1 : senv),
     wf s -> brackets o p = true -> Sem (kind_of o) b (enter o (abs s)) e1 ->
     let s' := run (Push o :: b ++ [Pop p]) s in
     wf s' /\ ups s' = ups s /\ cur s' = cur s /\ (exists ext, heap s' = heap s ++ ext) /\
-    bottom s' = set_macros (bottom s) (fst (global_effect e1)) /\ m_cells s' = snd (global_effect e1) /\
+    bottom s' = set_lets (set_macros (bottom s) (fst (fst (global_effect e1)))) (snd (fst (global_effect e1))) /\
+    m_cells s' = snd (global_effect e1) /\
     abs s' = leave (abs s) e1.
 Proof. exact balanced_restores. Qed.
 Print Assumptions C04_balanced_restores.
@@ -92,13 +93,14 @@ Theorem C04_balanced_never_below :
     Bal K h -> exists ex, map fobj (ups (run h s)) = ex ++ map fobj (ups s) /\ textra_ok K ex.
 Proof. exact balanced_never_below. Qed.
 
-(* M4a: after a group closes, category codes and aliases are those from before, and every name that was not
-   defined globally inside has the meaning it had *)
+(* M4a: after a group closes, category codes are those from before, and every name that was not defined (aliased)
+   globally inside has the meaning (alias) it had *)
 Theorem C04_local_dies :
   forall (s : state) (o p : option objinfo) (b : list op) (e1 : senv),
     wf s -> brackets o p = true -> Sem (kind_of o) b (enter o (abs s)) e1 ->
     let s' := run (Push o :: b ++ [Pop p]) s in
-    (forall c, which s' c = which s c) /\ (forall k, get_let s' k = get_let s k) /\
+    (forall c, which s' c = which s c) /\
+    (forall k, forallb (no_glet k) b = true -> get_let s' k = get_let s k) /\
     (forall k, forallb (no_gwrite k) b = true -> lookup s' k = lookup s k).
 Proof. exact local_dies. Qed.
 Print Assumptions C04_local_dies.
@@ -173,3 +175,18 @@ Example C04_lookahead_reorder_refuted :
   which (run [Push None; Catcode 64 11; Pop None] init_state) 64 = which init_state 64 /\
   which (run [Push None; Pop None; Catcode 64 11] init_state) 64 <> which init_state 64.
 Proof. vm_compute. split; [reflexivity|discriminate]. Qed.
+
+(* known finding C04-redefine-char-let (program level): once \ql is \let to a character the Tokenizer replaces the control
+   sequence by that character, so a second \let\ql=y inside a group reaches Context.let with another destination; the
+   history really run is the second one, and the innermost alias of \ql is not the one the program asked for *)
+Example C04_charlet_redefinition_refuted :
+  get_let (run [LetTok 7 120; Push None; LetTok 7 121] init_state) 7 = Some 121 /\
+  get_let (run [LetTok 7 120; Push None; LetTok 99 121] init_state) 7 = Some 120.
+Proof. vm_compute. split; reflexivity. Qed.
+
+(* fixed by notes/C04/fix-1.diff: \global was a no-op, i.e. {\global\def\a{..}} ran the first history below, not the second *)
+Example C04_global_prefix_was_ignored :
+  lookup (run [Push None; AddLocal 0 (VDef 1); Pop None] init_state) 0 = None /\
+  lookup (run [Push None; AddGlobal 0 (VDef 1); Pop None] init_state) 0 = Some (VDef 1) /\
+  get_let (run [Push None; GLetTok 0 120; Pop None] init_state) 0 = Some 120.
+Proof. vm_compute. repeat split. Qed.
